@@ -1331,7 +1331,7 @@ pub async fn gen_wire(sim: &mut Sim, rng: &mut Prng, stats: &mut Stats, name: &s
                 1 => synack_bytes(&entries, &ops, block, compress),
                 _ => ack_bytes(&ops, block, compress),
             };
-            sim.decode_expect_ok(&bytes);
+            sim.decode(&bytes);
             sim.wire_check(&bytes);
             if rng.chance(1, 6) {
                 // one compressible member state of 20-40 kB in a single compressed block: the layout
